@@ -6,7 +6,9 @@ use serde_json::{json, Value};
 pub fn handoff(v: &Value) -> Value {
     let args: Vec<String> = v["args"].as_array().unwrap().iter().map(|a| String::from_utf8(bytes_of(a)).unwrap()).collect();
     let ov: Option<String> = if v["override"].is_null() { None } else { Some(String::from_utf8(bytes_of(&v["override"])).unwrap()) };
-    let st = verif_hooks::proxy_to_git(&args, false, ov.as_deref());
+    let exit_on_completion = v["exit_on_completion"].as_bool().unwrap_or(false);
+    // with exit_on_completion the wrapper ends this process itself (exit_with_status): the caller observes how
+    let st = verif_hooks::proxy_to_git(&args, exit_on_completion, ov.as_deref());
     #[cfg(unix)]
     let sig = {
         use std::os::unix::process::ExitStatusExt;
